@@ -210,7 +210,7 @@ def c04_ok(enc, sysm, st):
       conj.append(z3.Implies(last, z3.And(tag == 1, kind == F.K_STOP, val == full)))
       conj.append(z3.Implies(z3.ULT(B.BV(j + 1), ln), tag == 0))
     # production order per producer inside one consumer
-    for a in range(len(es)):
+    for a in range(len(es) if ordered else 0):
       for b in range(a + 1, len(es)):
         ja, ta, ka, va = es[a]; jb, tb, kb, vb = es[b]
         same_prod = z3.LShR(va - 1, 4) == z3.LShR(vb - 1, 4)
@@ -331,8 +331,8 @@ def c04_ok_py(meta, logs):
   return True, ''
 
 
-def items_sane(enc, sysm, st, conj):
-  """No element twice, per-producer order inside each consumer, only elements that were really produced."""
+def items_sane(enc, sysm, st, conj, ordered=True):
+  """No element twice, per-producer order inside each consumer (ordered=True), only elements that were really produced."""
   import z3
   m = sysm.meta
   logs = [f'LOG{c}' for c in range(m['ncons'])]
@@ -349,7 +349,7 @@ def items_sane(enc, sysm, st, conj):
     for j, tag, kind, val in es:
       conj.append(z3.Implies(z3.And(z3.ULT(B.BV(j), ln), tag == 0), z3.Or(*[val == v for v in valid]) if valid else z3.BoolVal(False)))
       conj.append(z3.Implies(z3.ULT(B.BV(j + 1), ln), tag == 0))         # a terminal event is the last entry
-    for a in range(len(es)):
+    for a in range(len(es) if ordered else 0):
       for b in range(a + 1, len(es)):
         ja, ta, ka, va = es[a]; jb, tb, kb, vb = es[b]
         conj.append(z3.Implies(z3.And(z3.ULT(B.BV(jb), ln), ta == 0, tb == 0, z3.LShR(va - 1, 4) == z3.LShR(vb - 1, 4)), z3.ULT(va, vb)))
@@ -528,7 +528,8 @@ def c13_ok(enc, sysm, st):
   import z3
   m = sysm.meta
   conj = []
-  ents = items_sane(enc, sysm, st, conj)['LOG0']
+  # C13 states the sequential MULTISET: with a shared input two workers may legitimately deliver neighbouring elements in either order
+  ents = items_sane(enc, sysm, st, conj, ordered=False)['LOG0']
   ln = st[('loglen', 'LOG0')]
   nitems = bvsum([z3.And(z3.ULT(B.BV(j), ln), tag == 0) for j, tag, kind, val in ents])
   ns = enc.P['NS'] if 'NS' in enc.P else B.BV(sysm.objects['DQ'].consts['_num_steps'] & 0xFF if isinstance(sysm.objects['DQ'].consts['_num_steps'], int) else 255)
